@@ -232,23 +232,10 @@ def tokenise (cs : List Char) : Option (List STok) := mRun {} (lex cs)
 /-! ### from the tokeniser's strings to `parse_string`'s tokens
 
 `parse_string` compares each token with the punctuation strings and converts the token after
-`:` with `float` (`rd`); every other label is a name. -/
+`:` with `float` (`rd`); every other label is a name (`[` comments are out of scope). -/
 def punTok {K : Type} (c : Char) : Option (Tok K) :=
   if c = '(' then some .lp else if c = ')' then some .rp else if c = ',' then some .comma
   else if c = ':' then some .colon else if c = ';' then some .semi else none
-
-def retok {K : Type} (rd : List Char → Option K) : Bool → List STok → Option (List (Tok K))
-  | _, [] => some []
-  | true, .lab s :: rest =>
-    match rd s with
-    | none => none
-    | some k => (retok rd false rest).map (Tok.num k :: ·)
-  | true, .pun _ :: _ => none
-  | false, .lab s :: rest => (retok rd false rest).map (Tok.label (String.ofList s) :: ·)
-  | false, .pun c :: rest =>
-    match punTok (K := K) c with
-    | none => none
-    | some t => (retok rd (c == ':') rest).map (t :: ·)
 
 /-- the tokens produced before the tokeniser raises (`false`) or reaches the end of the text -/
 def mRunP : MSt → List Raw → List STok × Bool
@@ -263,6 +250,22 @@ def mRunP : MSt → List Raw → List STok × Bool
 
 def tokeniseP (cs : List Char) : List STok × Bool := mRunP {} (lex cs)
 
+/-- how `parse_string` reads one token: the token after `:` goes through `float`; a token equal to a
+punctuation string is that punctuation (even when it came from a quoted label); else a name -/
+def classify {K : Type} (rd : List Char → Option K) (afterColon : Bool) (tok : STok) : Option (Tok K × Bool) :=
+  match afterColon, tok with
+  | true, .lab s => (rd s).map fun k => (Tok.num k, false)
+  | true, .pun _ => none
+  | false, .lab s =>
+    match s with
+    | [c] =>
+      if c = '[' then none                      -- taken for a comment opener (comments are not modelled)
+      else (match punTok (K := K) c with
+        | some t => some (t, c == ':')
+        | none => some (Tok.label (String.ofList s), false))
+    | _ => some (Tok.label (String.ofList s), false)
+  | false, .pun c => (punTok (K := K) c).map fun t => (t, c == ':')
+
 /-- `parse_string` consumes the token generator lazily: it stops at the first top-level `;`, so a
 later tokeniser error is never seen.  `ok = false`: the generator raises after these tokens. -/
 def plazy {K : Type} (rd : List Char → Option K) : PState K → Bool → List STok → Bool → Option (PTree K)
@@ -272,13 +275,7 @@ def plazy {K : Type} (rd : List Char → Option K) : PState K → Bool → List 
       | _ => none)
     else none
   | σ, ac, tok :: ts, ok =>
-    let conv : Option (Tok K × Bool) :=
-      match ac, tok with
-      | true, .lab s => (rd s).map fun k => (Tok.num k, false)
-      | true, .pun _ => none
-      | false, .lab s => some (Tok.label (String.ofList s), false)
-      | false, .pun c => (punTok (K := K) c).map fun t => (t, c == ':')
-    match conv with
+    match classify rd ac tok with
     | none => none
     | some (t, ac') =>
       match pstep σ (some t) with
